@@ -276,6 +276,19 @@ func c18Structure(r *report.Run, cell string, d *oasDoc, replay any) {
 			bad("oas_required_member_missing", "neither paths nor components")
 		}
 	}
+	// path templates: "The field name MUST begin with a forward slash"
+	if paths, ok2 := root["paths"].(map[string]any); ok2 {
+		slashless := 0
+		for _, k := range sortedKeysAny(paths) {
+			if !strings.HasPrefix(k, "/") && !strings.HasPrefix(k, "x-") {
+				bad("path_key_without_leading_slash", fmt.Sprintf("paths key %q", k))
+				slashless++
+			}
+		}
+		if slashless == 0 {
+			ok("path_keys_begin_with_slash")
+		}
+	}
 	// refs
 	refs := map[string]string{}
 	model.Refs(doc, "", refs)
